@@ -110,6 +110,22 @@ def shape(fn: ast.FunctionDef, names: list) -> str:
     return hashlib.sha256(ast.dump(t).encode()).hexdigest()[:16]
 
 
+def param_names(fn: ast.FunctionDef) -> list:
+    a = fn.args
+    return [x.arg for x in a.posonlyargs + a.args] + ([a.vararg.arg] if a.vararg else []) + [x.arg for x in a.kwonlyargs] + ([a.kwarg.arg] if a.kwarg else [])
+
+
+def find(src_tree: ast.Module, qual: str):
+    body = src_tree.body
+    node = None
+    for p in qual.split("#")[0].split("."):
+        node = next((n for n in body if isinstance(n, (ast.FunctionDef, ast.ClassDef)) and n.name == p), None)
+        if node is None:
+            return None
+        body = node.body
+    return node if isinstance(node, ast.FunctionDef) else None
+
+
 def describe(src_tree: ast.Module, qual: str):
     """-> (binders, shape) of the function `Class.method` | `func` | `func.inner` in a parsed module, or (None, None)"""
     body = src_tree.body
